@@ -29,7 +29,7 @@ RULE = ("Hypothesis-generated JSON documents shaped like version 1 / 2 certifica
         "the C06 / C07 builders; non-trivial = document that loads, or that contains a cycle or "
         "a dangling reference; distinct by document text")
 ASSUMPTIONS = [
-    "non-termination is observed through a 30 s SIGALRM watchdog (about 10^5 times the normal "
+    "non-termination is observed through a 10 s SIGALRM watchdog (about 10^5 times the normal "
     "cost of a load); a hit is re-run once before it is reported",
     "the graph walk that judges 'cycle-free path to the root' is the harness's own, over "
     "to_dict() of the loaded certificate",
@@ -240,7 +240,7 @@ def _alarm(*a):
 def guarded(fn, what, text):
     for attempt in (1, 2):
         signal.signal(signal.SIGALRM, _alarm)
-        signal.alarm(30)
+        signal.alarm(10)
         try:
             return fn()
         except Timeout:
